@@ -350,7 +350,7 @@ def table_case(draw, tier="quick"):
                           st.tuples(st.just("mask"), st.lists(st.booleans(), min_size=n, max_size=n), st.sampled_from(["vector", "list"]))))
     stored = [nm for nm, _ in cols if isinstance(nm, str)]
     sel = draw(st.lists(st.sampled_from(stored), min_size=1, max_size=3)) if stored else []
-    missing = draw(st.sampled_from(["missing", "zz", "a__9", "col9_", "B", "b_", "col0_", "col1_", "COL0_", "col2_", "Col1_"]))
+    missing = draw(st.sampled_from(["missing", "zz", "a__9", "col9_", "B", "b_", "col0_", "col1_", "COL0_", "col2_", "Col1_", "col01_", "col00_", "col000_", "col1__", "col_1_", "col+1_"]))
     pos = draw(st.integers(0, len(sel)))
     return {"cols": cols, "rows": rows, "sel": sel, "missing": missing, "missing_pos": pos}
 
